@@ -115,6 +115,16 @@ TABLE = {
             "lengths up to 23 grid steps and all positions in [-2pi, 2pi] is executed on real Interval / AngleInterval objects "
             "and TLC validates results, exceptions (Total) and the rejection of inverted intervals.",
             "TLC, exactness of dyadic float arithmetic, k*pi/12 as float"),
+    "C07": ("Assignment.tla / MC_Assignment.tla / Trace_Assignment.tla",
+            "Closed-set centre / shape truth on lattice lanelet boxes (rectangles, box polygons, discs; quarter-turn poses) "
+            "and an implementation-shaped model of add / assign / remove with lanelet registries: TLC checks over all "
+            "histories (<= 6 steps) that registries are the exact inverse of the recorded shape relations and that remove "
+            "never fails; the deviation constant reproduces the static-obstacle registry defect. A transition cover, both "
+            "file readers with lanelet assignment and seeded random lattice worlds run on real scenarios; after every call "
+            "all forward relations and registries are logged and TLC recomputes the truth (pure boundary contact of rotated "
+            "shapes and discs is an EITHER-band declared in the spec).",
+            "TLC, lattice geometry; known finding: Circle.shapely_object has half the radius (cannot be repaired: a pinned "
+            "test encodes it)"),
 }
 
 PENDING_REASON = "check not built yet in this round (specification module planned in DESIGN.md section 4); not claimed"
